@@ -94,6 +94,7 @@ func firstFailuresConcurrently(rep *Report) {
 
 func directC09(g *G, rep *Report) {
 	firstFailuresConcurrently(rep)
+	providerFallbackConcurrently(rep)
 	nb := g.N(25, 400)
 	G, R := 8, g.N(6, 12)
 	bg := newBundleGen(g.R.Fork(), bundleOpts{msgs: true, directives: true, calls: true})
